@@ -11,6 +11,8 @@ comma-separated ints (`1,2,0`; a network node or Voronoi index is a single int);
   scenario vor d <n> p:... t:... a:num/den ...         (default capacity_function; a: the exact Voronoi cell areas, one per cell)
   new cell|fixed|g2d | set a c|- | moveto a c | moverel a key | move a Dir k | remove a
   tryrandom 0|1 | randempty d... | randcell d...           -> result + full observation dump
+  agentscopy c                                             -> `l = cell.agents; l.clear()` (a copy: nothing may change) + dump
+  clearcell c                                              -> `for a in cell.agents: a.remove()` + dump
   conns c | nbhd c r ic | nbprop c | mask c r ic           -> result only
   nbagents c r ic                                          -> agents in the (memoised) neighbourhood, sorted
   connect c c2 key|- | disconnect c c2                     -> result only (`Cell.connect(other, key)` / `Cell.disconnect(other)`
@@ -303,6 +305,8 @@ class Header:
             self.default_cap = w[2] == "d"
             self.cap, self.n = (None if self.default_cap else parse_opt_int(w[2])), int(w[3])
             self.areas = [Fraction(t[2:]) for t in w[4:] if t.startswith("a:")]
+            # `c:k` (only with `d`): `capacity=k` is passed too; `_build_cell_polygons` overwrites it on every cell
+            self.passed_cap = next((int(t[2:]) for t in w[4:] if t.startswith("c:")), None)
             self.points = [parse_tuple(t[2:]) for t in w[4:] if t.startswith("p:")]
             # optional `s:k`: the centroids are the integer points divided by k (connections are scale-invariant,
             # the code's fixed-size Bowyer-Watson frame is not)
@@ -352,7 +356,7 @@ class Impl:
                 cap = h.cap
                 pts = [[x / h.scale for x in p] for p in h.points]
                 if h.default_cap:
-                    self.space = ds.VoronoiGrid(pts, random=self.rng)
+                    self.space = ds.VoronoiGrid(pts, random=self.rng, **({} if h.passed_cap is None else {"capacity": h.passed_cap}))
                 else:
                     self.space = ds.VoronoiGrid(pts, capacity=cap, random=self.rng, capacity_function=lambda area: cap)
         except ValueError:
@@ -401,6 +405,17 @@ class Impl:
         if k == "randcell":
             self.rng.script = [int(x) for x in w[1:]]
             return "ok " + self.cname(sp.all_cells.select_random_cell())
+        if k == "agentscopy":
+            # the list `cell.agents` hands out belongs to the caller: emptying it must not empty the cell
+            held = sp[self.h.key(w[1])].agents
+            res = "ok " + ".".join(str(a._vidx) for a in held)
+            held.clear()
+            return res
+        if k == "clearcell":
+            # the idiom for emptying a cell: iterate over the copy while the agents leave the cell's own list
+            for a in sp[self.h.key(w[1])].agents:
+                a.remove()
+            return "ok"
         i = int(w[1])
         if i >= len(self.agents):
             return "err NoAgent"
@@ -939,7 +954,7 @@ def gen_net_header(R, max_nodes=8, caps=(None, None, 1, 1, 2, 3), directed_p=0.1
 FALLBACK_POINTS = [(-3, -6), (6, -9), (3, 4), (-9, 5), (-1, -2)]  # in general position, also with the frame corners
 
 
-def gen_vor_default_header(R, max_points=7):
+def gen_vor_default_header(R, max_points=7, rich=False):
     """a VoronoiGrid with the default capacity_function: a small cluster in units of 1/16 .. 1/64 so that inner cells get
     capacities of a few agents (int(area * 500)); None if no suitable point set was found"""
     for _ in range(60):
@@ -959,14 +974,15 @@ def gen_vor_default_header(R, max_points=7):
             continue
         if not any(1 <= c <= 4 for c in caps) and R.random() < 0.8:
             continue
+        passed = f" c:{R.choice([1, 1, 2, 5])}" if rich and R.random() < 0.4 else ""
         return (f"scenario vor d {n} " + " ".join(f"p:{x},{y}" for x, y in pts) + " " + " ".join(f"t:{a},{b},{c}" for a, b, c in tris)
-                + f" s:{scale} " + " ".join(f"a:{a.numerator}/{a.denominator}" for a in areas))
+                + f" s:{scale} " + " ".join(f"a:{a.numerator}/{a.denominator}" for a in areas) + passed)
     return None
 
 
-def gen_vor_header(R, max_points=7, caps=(None, None, 1, 1, 2, 3), span=9, default_cap=False):
+def gen_vor_header(R, max_points=7, caps=(None, None, 1, 1, 2, 3), span=9, default_cap=False, rich=False):
     if default_cap:
-        hd = gen_vor_default_header(R, max_points)
+        hd = gen_vor_default_header(R, max_points, rich=rich)
         if hd is not None:
             return hd
     scale = 1
@@ -1006,7 +1022,7 @@ def gen_header(R, default_caps=False, rich=False, **kw):
         return gen_grid_header(R, **kw)
     if k < 0.85:
         return gen_net_header(R, rich=rich, **({"caps": RICH_CAPS} if rich else {}))
-    return gen_vor_header(R, default_cap=default_caps and R.random() < 0.5, **({"caps": RICH_CAPS} if rich else {}))
+    return gen_vor_header(R, default_cap=default_caps and R.random() < 0.5, **({"caps": RICH_CAPS, "rich": True} if rich else {}))
 
 
 def cell_names(h):
@@ -1158,6 +1174,16 @@ def gen_c06(R, rejecting=False, n_ops=None, header=None, edits=False, default_ca
         if R.random() < (0.05 if rejecting else 0.12):
             # the CellCollection API on all_cells / empties / neighbourhoods / selections, at the current occupancy
             emit(gen_coll(R, h, names, impl).rstrip())
+            continue
+        if rich and R.random() < 0.045:
+            # `cell.agents` is a copy (scribbling on it changes nothing) and the idiom that relies on it: emptying a cell
+            # by `for a in cell.agents: a.remove()`; mostly on occupied cells, preferably with several agents
+            occd = [n for n in names if impl.space[h.key(n)]._agents]
+            many = [n for n in occd if len(impl.space[h.key(n)]._agents) >= 2]
+            c = R.choice(many) if many and R.random() < 0.6 else R.choice(occd) if occd and R.random() < 0.85 else R.choice(names)
+            if R.random() < 0.03:
+                c = ",".join(str(d) for d in h.dims) if h.kind == "grid" else str(h.n + 1)  # no such cell
+            emit(f"{R.choice(['agentscopy', 'agentscopy', 'clearcell'])} {c}")
             continue
         if edits and R.random() < 0.05:
             # connections edited after construction, mostly at the cell of an agent that can move: later relative moves
@@ -1317,6 +1343,15 @@ def oracle_c06(sc, obs, reject_clause=True):
                 bad.append(f"remove: after `{line}` agent {w[1]} is still listed in a cell")
             if w[1] in reg:
                 bad.append(f"remove: after `{line}` agent {w[1]} is still registered")
+        # `cell.agents` is a copy: emptying the list it handed out changes nothing
+        if w[0] == "agentscopy" and prev is not None and d != prev:
+            bad.append(f"agents-copy: `{line}` (clearing the list returned by cell.agents) changed {[k for k in d if d[k] != prev.get(k)]}")
+        # emptying a cell by iterating over cell.agents removes every agent that was in it
+        if w[0] == "clearcell" and res == "ok" and prev is not None:
+            was = next((t.partition(":")[2].split(".") for t in prev["occ"] if t.partition(":")[0] == w[1]), [])
+            left = [a for a in was if a in reg or any(a in occ[n] for n in names)]
+            if left or (w[1] in occ and occ[w[1]]):
+                bad.append(f"clearcell: after `{line}` agents {left} of the cell are still in a cell / the model; the cell holds {occ.get(w[1])}")
         # (C18) a rejected placing call changes nothing
         if reject_clause and w[0] in PLACING and res.startswith("err") and prev is not None and d != prev:
             diff = [k for k in d if d[k] != prev.get(k)]
@@ -1353,6 +1388,8 @@ def tags_c06(sc, obs):
         yield "cap:" + (w0[3] if w0[1] == "net" else w0[2] if w0[2] != "d" else "default-capacity-function")
         if w0[2] == "d":
             h = Header(w0)
+            if h.passed_cap is not None:
+                yield "voronoi-default-capacity:overrides-the-capacity-argument"
             for c in sorted({min(h.capof(n), 9) for n in cell_names(h)}):
                 yield f"voronoi-default-capacity:{c if c < 9 else '9+'}"
     prev = None
@@ -1365,6 +1402,9 @@ def tags_c06(sc, obs):
             yield "coll-base:" + w[1].split("+")[0].split(":")[0] + ("+select" if "+" in w[1] else "")
             if w[2] in ("randcell", "randagent") and res.startswith("ok") and len(w) > 4:
                 yield "coll:spare-draws-left-alone"
+        if w[0] in ("agentscopy", "clearcell") and prev is not None and res.startswith("ok"):
+            n = next((len(t.partition(":")[2].split(".")) for t in prev["occ"] if t.partition(":")[0] == w[1]), 0)
+            yield f"{w[0]}:{'empty-cell' if n == 0 else '1-agent' if n == 1 else 'several-agents'}"
         if res.startswith("err"):
             yield f"reject:{w[0]}:{res.split()[1]}"
         if w[0] == "move" and w0[1] == "grid" and w0[2] == "hex":
@@ -1488,6 +1528,12 @@ def gen_c07(R, tier):
         hd = gen_net_header(R, max_nodes=12, caps=(None,), directed_p=0.2, rich=True)
     else:
         hd = gen_vor_header(R, max_points=9 if tier == "thorough" else 8, caps=(None,))
+    if R.random() < 0.02:
+        # what `_validate_parameters` refuses: a non-positive size, a HexGrid that is not 2-D (the rest of the scenario then
+        # talks to no space)
+        bad = R.choice([grid_header(R.choice(["moore", "vn", "hex"]), R.randint(0, 1), R.choice([(0, 3), (2, 0), (2, -1), (0,)])),
+                        grid_header("hex", R.randint(0, 1), R.choice([(3,), (2, 2, 2)]))])
+        return core.Scenario([bad, "conns 0,0", "nbhd 0,0 1 0"])
     h = Header(hd.split())
     names = cell_names(h)
     lines = [hd]
@@ -1614,6 +1660,8 @@ def oracle_c07(sc, obs):
 
 def tags_c07(sc, obs):
     w0 = sc.lines[0].split()
+    if obs[0] != "ok":
+        yield "constructor-refuses:" + ("hex-not-2d" if w0[2] == "hex" and len(w0[5].split(",")) != 2 else "non-positive-size")
     yield "space:" + (w0[2] if w0[1] == "grid" else w0[1])
     if w0[1] == "grid":
         dims = w0[5].split(",")
